@@ -20,16 +20,40 @@ RULES = {
     "foreign tags, W/ member inside a list, '*', Last-Modified, ETag + Last-Modified}; 1..2 files; Files and Pages; both interfaces; "
     "non-trivial = a validator request that follows a modification of the same file, or a list/weak validator form",
     "grid": "exhaustive: every (modification kind or none) x (clock advance before it) x (validator form) x Files/Pages x WSGI/ASGI as a 3-step history; for the date and tag validators also with the file clock starting exactly on, and just before, a whole second",
+    "grid2": "enumerated short histories over the dimensions the first grid holds fixed: (A) ONE application instance serving the whole history "
+    "(request - revalidation - modification - revalidation - plain request - revalidation of the second response), also through the extension-less "
+    "Pages URL; (B) further validator forms: the tag behind 40 other list members, horizontal tabs as list white space, empty list members, weak "
+    "members without blanks, weak tag + date, list + date, '*' + date, the date header in front of the tag header; (C) HEAD for the remembered "
+    "response and/or the revalidation; (D) the file deleted (no 304 for any form, '*' included) and re-created; (E) files in sub-directories, "
+    "directory URLs served from index.html and extension-less URLs of Pages; (F) every cacheability x max_age 0/600, with and without handle_404; "
+    "(G) rewrites that shrink the file by one byte k seconds later, truncation to zero bytes, access-time bumps; (H) chains - the validators of "
+    "the 200 that answered a conditional request are replayed in turn; (I) unrelated request headers around the validators; (J) the remembered "
+    "response taken after the file's mtime was set back / the file was touched / read, so that atime, mtime and ctime already differ; (K) the "
+    "date validator in process time zones with daylight-saving rules (northern, southern, European) in their winter and summer, after a leap "
+    "day, after 2038; (L) two files with equal time stamps served and revalidated alternately by one instance while one of them is modified",
+    "histories2": "Hypothesis: histories as in `histories` with all of the above drawn freely: one application instance or a fresh one per request, "
+    "constructor options, flat or nested layout with pretty URLs, GET/HEAD, delete / shrink / truncate / access operations, all 20 validator "
+    "forms, unrelated headers, and the 200 answers to conditional requests remembered as further responses j",
 }
 ASSUMPTIONS = [
     "undetectable class: same size and identical mtime - a 304 is tolerated there; for Last-Modified-only validators any change whose "
     "change time stays within one second of the remembered Last-Modified is undetectable by construction of the mechanism",
     "Last-Modified-only revalidation of an unchanged file may be 304 or 200",
     "timestamps are virtual (os.stat wrapped before baize is imported); sizes and contents are real files",
+    "a HEAD request is a request: it revalidates like GET (304 for an unchanged file) and hands out the same validators; its body is not judged here",
+    "a deleted file: only the 304 is judged here (a request with validators for a file that is gone must not be told 'not modified'); the 404 itself is C07's",
 ]
 
 T0 = 1_700_000_000.25
 FORMS = ["etag", "weak", "list-first", "list-middle", "list-last", "weak-in-list", "weak-first-in-list", "star", "lastmod", "both", "list-nospace", "near-tags"]
+# further forms (sub-checks grid2 / histories2)
+FORMS2 = ["list-long", "list-tabs", "list-empty-members", "weak-list-nospace", "weak-both", "list-both", "both-ims-first", "star-both"]
+ALL_FORMS = FORMS + FORMS2
+STAR_FORMS = ("star", "star-both")
+BASIC_FORMS = ("etag", "lastmod", "both", "star")
+MODS = ("rewrite_same", "rewrite_other", "touch", "restore_old", "rewrite_shrink", "truncate")
+DEFAULT_NAMES = ["a.txt", "b.html"]
+TREE_NAMES = ["index.html", "sub/index.html", "docs/c.html"]
 _DIR = None
 
 
@@ -49,51 +73,78 @@ def workdir():
 
 
 class World:
-    def __init__(self, nfiles, frac=None):
+    def __init__(self, nfiles, frac=None, names=None):
         # the sub-second phase of the file clock matters to truncating comparisons: start on a whole
         # second, just before one, or in between
         self.now = T0 if frac is None else int(T0) + frac
         self.dir = workdir()
         self.files = {}
         vfs.clear_times(self.dir)
-        for i in range(nfiles):
-            name = ["a.txt", "b.html"][i]
-            self.files[name] = {"content": b"", "times": None, "version": 0, "snaps": [], "mods_since": {}}
+        for name in (list(names) if names else DEFAULT_NAMES[:nfiles]):
+            self.files[name] = {"content": b"", "times": None, "version": 0, "snaps": [], "mods_since": {}, "deleted": False}
             self.write(name, f"{name}:v0:".encode() + b"x" * 8, self.now, self.now, self.now)
 
     def path(self, name):
-        return os.path.join(self.dir, name)
+        return os.path.join(self.dir, *name.split("/"))
 
     def write(self, name, content, atime, mtime, ctime):
+        os.makedirs(os.path.dirname(self.path(name)), exist_ok=True)
         with open(self.path(name), "wb") as fh:
             fh.write(content)
         f = self.files[name]
         f["content"] = content
         f["times"] = (atime, mtime, ctime)
+        f["deleted"] = False
         vfs.set_times(self.path(name), atime, mtime, ctime)
+
+    def delete(self, name):
+        f = self.files[name]
+        if not f["deleted"]:
+            os.remove(self.path(name))
+            vfs.CLOCK.pop(os.path.abspath(self.path(name)), None)
+            f["deleted"] = True
+            for j in f["mods_since"]:
+                f["mods_since"][j].append("delete")
+
+    def access(self, name):
+        # the file was read: only the access time moves - not a modification
+        f = self.files[name]
+        if not f["deleted"]:
+            a, m, c = f["times"]
+            f["times"] = (max(a, self.now), m, c)
+            vfs.set_times(self.path(name), *f["times"])
+
+    @staticmethod
+    def _differs(new, old):
+        # same length, other bytes (an empty file cannot be rewritten to something else of its size)
+        if new == old and old:
+            new = bytes([old[0] ^ 1]) + old[1:]
+        return new
 
     def modify(self, name, kind):
         f = self.files[name]
         f["version"] += 1
         v = f["version"]
         a, m, c = f["times"]
+        if f["deleted"]:
+            a = self.now  # a file created anew
         old = f["content"]
         if kind == "rewrite_same":
             body = f"{name}:v{v}:".encode()
-            new = (body + b"y" * len(old))[: len(old)]
-            if new == old:
-                new = bytes([old[0] ^ 1]) + old[1:]
-            self.write(name, new, a, self.now, self.now)
+            self.write(name, self._differs((body + b"y" * len(old))[: len(old)], old), a, self.now, self.now)
         elif kind == "rewrite_other":
             self.write(name, f"{name}:v{v}:".encode() + b"z" * (8 + v), a, self.now, self.now)
         elif kind == "touch":
             self.write(name, old, a, self.now, self.now)
         elif kind == "restore_old":
             body = f"{name}:v{v}:".encode()
-            new = (body + b"w" * len(old))[: len(old)]
-            if new == old:
-                new = bytes([old[0] ^ 1]) + old[1:]
-            self.write(name, new, a, T0 - 10.0 - v, self.now)
+            self.write(name, self._differs((body + b"w" * len(old))[: len(old)], old), a, T0 - 10.0 - v, self.now)
+        elif kind == "rewrite_shrink":
+            # one byte shorter (an empty or one-byte file grows instead)
+            n = len(old) - 1 if len(old) >= 2 else len(old) + 1
+            self.write(name, (f"{name}:s{v}:".encode() + b"s" * n)[:n], a, self.now, self.now)
+        elif kind == "truncate":
+            self.write(name, b"", a, self.now, self.now)
         else:
             raise core.HarnessError(kind)
         for j in f["mods_since"]:
@@ -130,19 +181,79 @@ def validators(form, snap):
     elif form == "both":
         h["If-None-Match"] = etag
         h["If-Modified-Since"] = lm
+    elif form == "list-long":
+        # the file's tag is the last of 41 members (a cache that holds many variants)
+        h["If-None-Match"] = ", ".join([f'"foreign{i}"' for i in range(40)] + [etag])
+    elif form == "list-tabs":
+        # optional white space around list members is SP / HTAB
+        h["If-None-Match"] = f'"foreign1",\t{etag}\t,\t"foreign2"'
+    elif form == "list-empty-members":
+        # empty list elements are legal and ignored (RFC 7230 section 7)
+        h["If-None-Match"] = f'"foreign1",, ,{etag},'
+    elif form == "weak-list-nospace":
+        h["If-None-Match"] = f'W/"foreign1",W/{etag}'
+    elif form == "weak-both":
+        h["If-None-Match"] = "W/" + etag
+        h["If-Modified-Since"] = lm
+    elif form == "list-both":
+        h["If-None-Match"] = f'"foreign1", {etag}, "foreign2"'
+        h["If-Modified-Since"] = lm
+    elif form == "both-ims-first":
+        # the same two validators, the date header in front (header order is the client's choice)
+        h["If-Modified-Since"] = lm
+        h["If-None-Match"] = etag
+    elif form == "star-both":
+        h["If-None-Match"] = "*"
+        h["If-Modified-Since"] = lm
     else:
         raise core.HarnessError(form)
     _ = bare
     return h
 
 
-def do_request(world, kind, side, name, headers):
+NOISE_BEFORE = [["Accept-Encoding", "gzip, br"], ["X-If-None-Match", "*"], ["User-Agent", "verif/1"]]
+NOISE_AFTER = [["If-None-Match-Id", '"zzz"'], ["X-If-Modified-Since", "Thu, 01 Jan 2099 00:00:00 GMT"], ["Cookie", "a=b"], ["Referer", "http://testserver/"]]
+
+
+def url_for(kind, name, pretty):
+    """URL of a file; `pretty` (Pages only): the extension-less URL of an .html file, the directory URL of an index.html."""
+    if kind == "pages" and pretty and name.endswith(".html"):
+        if name.rsplit("/", 1)[-1] == "index.html":
+            return "/" + name[: -len("index.html")]
+        return "/" + name[:-5]
+    return "/" + name
+
+
+def _h404_wsgi(environ, start_response):
+    start_response("404 Not Found", [("Content-Type", "text/plain"), ("Content-Length", "10")])
+    return [b"custom-404"]
+
+
+async def _h404_asgi(scope, receive, send):
+    await send({"type": "http.response.start", "status": 404, "headers": [(b"content-type", b"text/plain"), (b"content-length", b"10")]})
+    await send({"type": "http.response.body", "body": b"custom-404"})
+
+
+def make_app(world, kind, side, opts=None):
     M = W if side == "wsgi" else A
-    app = (M.Files if kind == "files" else M.Pages)(world.dir)
-    url = "/" + name
-    if kind == "pages" and name.endswith(".html") and headers.get("_strip_html"):
-        url = "/" + name[:-5]
-    rq = gw.areq(path=url, headers=[[k, v] for k, v in headers.items() if not k.startswith("_")])
+    kw = {}
+    for k, v in (opts or {}).items():
+        if k == "handle_404":
+            if v:
+                kw["handle_404"] = _h404_wsgi if side == "wsgi" else _h404_asgi
+        else:
+            kw[k] = v
+    return (M.Files if kind == "files" else M.Pages)(world.dir, **kw)
+
+
+def do_request(world, kind, side, name, headers, app=None, method="GET", noise=False):
+    if app is None:
+        app = make_app(world, kind, side)
+    url = url_for(kind, name, bool(headers.get("_strip_html")))
+    hdrs = [[k, v] for k, v in headers.items() if not k.startswith("_")]
+    if noise:
+        hdrs = NOISE_BEFORE + hdrs + NOISE_AFTER
+    rq = gw.areq(method=method, path=url, headers=hdrs)
     return gw.call_wsgi(app, rq) if side == "wsgi" else gw.call_asgi(app, rq)
 
 
@@ -182,9 +293,26 @@ def oracle(case) -> Result:
 def _oracle(case) -> Result:
     r = Result()
     kind = case["kind"]
-    world = World(case.get("nfiles", 1), case.get("frac"))
+    world = World(case.get("nfiles", 1), case.get("frac"), case.get("names"))
     names = list(world.files)
     nontrivial = False
+    shared = case.get("app") == "shared"  # one application instance per interface for the whole history
+    opts = case.get("opts")
+    chain = bool(case.get("chain"))  # 200 answers to conditional requests are remembered as responses j as well
+    apps = {}
+
+    def app_for(side):
+        if not shared:
+            return make_app(world, kind, side, opts)
+        if side not in apps:
+            apps[side] = make_app(world, kind, side, opts)
+        return apps[side]
+
+    def remember(f, run):
+        j = len(f["snaps"])
+        f["snaps"].append({"content": f["content"], "size": len(f["content"]), "times": f["times"], "etag": run.get("etag"), "lastmod": run.get("last-modified")})
+        f["mods_since"][j] = []
+
     try:
         for step, op in enumerate(case["ops"]):
             name = names[op[1] % len(names)] if len(op) > 1 and isinstance(op[1], int) and op[0] != "advance" else None
@@ -192,17 +320,34 @@ def _oracle(case) -> Result:
                 world.now += op[1]
                 continue
             f = world.files[name]
-            if op[0] in ("rewrite_same", "rewrite_other", "touch", "restore_old"):
+            if op[0] in MODS:
                 world.modify(name, op[0])
+                continue
+            if op[0] == "delete":
+                world.delete(name)
+                continue
+            if op[0] == "access":
+                world.access(name)
                 continue
             side = op[2]
             ctx = f"{kind} {side} step {step} {op!r} file {name} (history {case['ops'][:step + 1]!r})"
+            if shared or opts:
+                ctx += f" [app {'shared' if shared else 'fresh'}, options {opts!r}]"
             if op[0] == "get":
-                run = do_request(world, kind, side, name, {"_strip_html": op[3] if len(op) > 3 else False})
+                ex = op[4] if len(op) > 4 and isinstance(op[4], dict) else {}
+                method = ex.get("method", "GET")
+                run = do_request(world, kind, side, name, {"_strip_html": op[3] if len(op) > 3 else False}, app_for(side), method, bool(ex.get("noise")))
+                if f["deleted"]:
+                    if run.exc is not None:
+                        r.fail(f"C14:{side}:raised:{type(run.exc).__name__}", f"{ctx}: {run.exc!r}")
+                        return r
+                    if run.status_code == 304:
+                        r.fail(f"C14:{side}:stale-304:deleted", f"{ctx}: the file does not exist any more; status 304")
+                    continue
                 if run.exc is not None or run.status_code != 200:
                     r.fail(f"C14:{side}:plain-request", f"{ctx}: status {run.status_code} exc {run.exc!r}")
                     return r
-                if run.body != f["content"]:
+                if method != "HEAD" and run.body != f["content"]:
                     r.fail(f"C14:{side}:plain-body", f"{ctx}: body {run.body[:30]!r}, file holds {f['content'][:30]!r}")
                 etag, lm = run.get("etag"), run.get("last-modified")
                 if not etag or not lm:
@@ -210,34 +355,43 @@ def _oracle(case) -> Result:
                     return r
                 if lm != formatdate(f["times"][1], usegmt=True):
                     r.fail(f"C14:{side}:last-modified-value", f"{ctx}: Last-Modified {lm!r}, file mtime is {formatdate(f['times'][1], usegmt=True)!r}")
-                j = len(f["snaps"])
-                f["snaps"].append({"content": f["content"], "size": len(f["content"]), "times": f["times"], "etag": etag, "lastmod": lm})
-                f["mods_since"][j] = []
+                remember(f, run)
                 continue
             if op[0] == "cond":
                 if not f["snaps"]:
                     continue
                 j = op[3] % len(f["snaps"])
                 form = op[4]
+                ex = op[5] if len(op) > 5 and isinstance(op[5], dict) else {}
+                method = ex.get("method", "GET")
                 snap = f["snaps"][j]
                 hdrs = validators(form, snap)
-                run = do_request(world, kind, side, name, hdrs)
+                if ex.get("pretty"):
+                    hdrs["_strip_html"] = True
+                run = do_request(world, kind, side, name, hdrs, app_for(side), method, bool(ex.get("noise")))
+                hdrs.pop("_strip_html", None)
                 if run.exc is not None:
                     r.fail(f"C14:{side}:raised:{type(run.exc).__name__}", f"{ctx}: {run.exc!r}")
                     return r
                 status = run.status_code
                 mods = f["mods_since"][j]
+                if mods or form not in BASIC_FORMS:
+                    nontrivial = True
+                if f["deleted"]:
+                    # (1) for a file that is gone: nothing is "unchanged since that response", and '*' matches existing files only
+                    if status == 304:
+                        r.fail(f"C14:{side}:stale-304:deleted", f"{ctx}: validators {hdrs!r}; since response #{j}: ops {mods!r}; the file does not exist any more; status 304")
+                    continue
                 a0, m0, c0 = snap["times"]
                 a1, m1, c1 = f["times"]
                 size_changed = len(f["content"]) != snap["size"]
                 content_changed = f["content"] != snap["content"]
-                has_etag = form not in ("lastmod", "star")
-                if mods or form not in ("etag", "lastmod", "both", "star"):
-                    nontrivial = True
+                has_etag = form not in ("lastmod",) + STAR_FORMS
                 desc = f"{ctx}: validators {hdrs!r}; since response #{j}: ops {mods!r}, size {snap['size']}->{len(f['content'])}, mtime {m0}->{m1}, ctime {c0}->{c1}; status {status}"
                 if status not in (200, 304):
                     r.fail(f"C14:{side}:status", desc)
                     continue
+                body_ok = method == "HEAD" or run.body == f["content"]
                 # (4) shape of a 304
                 if status == 304:
                     if run.body != b"":
@@ -245,13 +399,19 @@ def _oracle(case) -> Result:
                     cl = run.get("content-length")
                     if cl not in (None, "0"):
                         r.fail(f"C14:{side}:304-content-length", f"{desc}: Content-Length {cl!r}")
-                if form == "star":
+                else:
+                    # a full response carries the validators of what it delivers
+                    if not run.get("etag") or run.get("last-modified") != formatdate(m1, usegmt=True):
+                        r.fail(f"C14:{side}:200-validators", f"{desc}: ETag {run.get('etag')!r}, Last-Modified {run.get('last-modified')!r}, file mtime is {formatdate(m1, usegmt=True)!r}")
+                if status == 200 and chain and body_ok and run.get("etag") and run.get("last-modified"):
+                    remember(f, run)
+                if form in STAR_FORMS:
                     if status != 304:
                         r.fail(f"C14:{side}:star-not-304", desc)
                     continue
                 if form == "near-tags":
                     # the client holds other representations: a 304 would leave it with a stale one
-                    if status != 200 or run.body != f["content"]:
+                    if status != 200 or not body_ok:
                         r.fail(f"C14:{side}:304-for-foreign-tag", desc)
                     continue
                 # (1) no stale 304
@@ -271,7 +431,7 @@ def _oracle(case) -> Result:
                     if status != 200:
                         r.fail(f"C14:{side}:not-refreshed:{form}", desc)
                     else:
-                        if run.body != f["content"]:
+                        if not body_ok:
                             r.fail(f"C14:{side}:refreshed-body", f"{desc}: body {run.body[:30]!r}")
                         if has_etag and run.get("etag") == snap["etag"]:
                             r.fail(f"C14:{side}:etag-unchanged-after-change", desc)
@@ -280,7 +440,7 @@ def _oracle(case) -> Result:
                 # (3) revalidation of an unchanged file
                 if not mods and has_etag and status != 304:
                     r.fail(f"C14:{side}:revalidation-failed:{form}", desc)
-                if status == 200 and run.body != f["content"]:
+                if status == 200 and not body_ok:
                     r.fail(f"C14:{side}:200-body", f"{desc}: body {run.body[:30]!r}")
                 continue
             raise core.HarnessError(f"op {op!r}")
@@ -288,15 +448,25 @@ def _oracle(case) -> Result:
         vfs.clear_times(world.dir)
     r.nontrivial = nontrivial
     r.label(f"kind={kind}", f"ops={min(len(case['ops']), 15)}")
+    if shared:
+        r.label("app=shared")
+    if opts:
+        r.label("options")
+    if case.get("names"):
+        r.label("layout=tree")
     for op in case["ops"]:
         if op[0] == "cond":
             r.label(f"form={op[4]}")
-        elif op[0] in ("rewrite_same", "rewrite_other", "touch", "restore_old"):
+            ex = op[5] if len(op) > 5 and isinstance(op[5], dict) else {}
+            for k in sorted(ex):
+                if ex[k]:
+                    r.label(f"cond:{k}={ex[k]}")
+        elif op[0] in MODS or op[0] in ("delete", "access"):
             r.label(op[0])
     return r
 
 
-SUBS = {"histories": oracle, "grid": oracle}
+SUBS = {"histories": oracle, "grid": oracle, "grid2": oracle, "histories2": oracle}
 
 
 @st.composite
@@ -336,9 +506,176 @@ def grid_cases():
                                     yield {"kind": kind, "nfiles": 1, "ops": ops, "frac": frac, "tz": tz}
 
 
+@st.composite
+def history2_case(draw):
+    """Histories over everything `history_case` holds fixed: application lifetime, constructor options, layout and URL
+    spelling, method, further operations and validator forms, chained responses."""
+    side = st.sampled_from(["wsgi", "asgi"])
+    kind = draw(st.sampled_from(["files", "pages"]))
+    tree = draw(st.booleans())
+    names = TREE_NAMES if tree else DEFAULT_NAMES
+    fidx = st.integers(0, len(names) - 1)
+    method = st.sampled_from(["GET", "GET", "GET", "HEAD"])
+    pretty = st.booleans() if kind == "pages" else st.just(False)
+    noise = st.sampled_from([False, False, True])
+    cond_extra = st.fixed_dictionaries({"method": method, "pretty": pretty, "noise": noise})
+    get_extra = st.fixed_dictionaries({"method": method, "noise": noise})
+    op = st.one_of(
+        st.tuples(st.just("advance"), st.sampled_from([0, 0.3, 0.75, 1, 1, 2, 3600, -2, 15_000_000])),
+        st.tuples(st.sampled_from(list(MODS) + ["rewrite_other", "rewrite_shrink", "access", "delete"]), fidx),
+        st.tuples(st.just("get"), fidx, side, pretty, get_extra),
+        st.tuples(st.just("cond"), fidx, side, st.integers(0, 5), st.sampled_from(ALL_FORMS), cond_extra),
+        st.tuples(st.just("cond"), fidx, side, st.integers(0, 5), st.sampled_from(ALL_FORMS), cond_extra),
+    ).map(list)
+    ops = draw(st.lists(op, min_size=2, max_size=13))
+    first = [["get", i, draw(side), False, {"method": "GET", "noise": False}] for i in range(draw(st.integers(1, len(names))))]
+    opts = draw(st.one_of(st.none(), st.fixed_dictionaries({
+        "cacheability": st.sampled_from(["public", "private", "no-cache", "no-store"]),
+        "max_age": st.sampled_from([0, 1, 600, 31536000]),
+        "handle_404": st.booleans()})))
+    case = {"kind": kind, "names": list(names), "ops": first + ops, "app": draw(st.sampled_from(["shared", "shared", "fresh"])), "chain": True,
+            "frac": draw(st.sampled_from([0.0, 0.25, 0.25, 0.5, 0.999])), "tz": draw(st.sampled_from([None, None, None, "EST5EDT,M3.2.0,M11.1.0", "CST-8", "NPT-5:45"]))}
+    if opts:
+        case["opts"] = opts
+    return case
+
+
+def grid2_cases():
+    """Enumerated short histories over the dimensions `grid` holds fixed (see RULES['grid2'])."""
+    KS = [(kind, side) for kind in ("files", "pages") for side in ("wsgi", "asgi")]
+    ALLMODS = (None,) + MODS
+
+    def hist(side, f, pre, dt, mod, post):
+        ops = list(pre) + [["advance", dt]]
+        if mod:
+            ops.append([mod, f])
+        return ops + list(post)
+
+    # (A) one application instance for the whole history; the .html file also through its extension-less URL
+    for kind, side in KS:
+        for f, pretty in ((0, False), (1, True)) if kind == "pages" else ((0, False),):
+            ex = {"pretty": True} if pretty else {}
+            for mod in ALLMODS:
+                for dt in (0, 1, 3600):
+                    for form in ("etag", "lastmod", "both", "list-middle"):
+                        ops = hist(side, f, [["get", f, side, pretty], ["cond", f, side, 0, form, ex]], dt, mod,
+                                   [["cond", f, side, 0, form, ex], ["get", f, side, pretty], ["cond", f, side, 1, "etag", ex]])
+                        yield {"kind": kind, "nfiles": 2, "ops": ops, "app": "shared"}
+    # the two interfaces side by side on one directory, each with its own long-lived instance
+    for kind in ("files", "pages"):
+        for mod in ALLMODS:
+            for form in ("etag", "both"):
+                ops = [["get", 0, "wsgi", False], ["get", 0, "asgi", False], ["advance", 2]] + ([[mod, 0]] if mod else []) + \
+                      [["cond", 0, "asgi", 0, form], ["cond", 0, "wsgi", 1, form], ["get", 0, "wsgi", False], ["cond", 0, "asgi", 2, form]]
+                yield {"kind": kind, "nfiles": 1, "ops": ops, "app": "shared"}
+    # (B) further validator forms
+    for kind, side in KS:
+        for mod in (None, "rewrite_other", "rewrite_same"):
+            for dt in (0, 2):
+                for form in FORMS2:
+                    yield {"kind": kind, "nfiles": 1, "ops": hist(side, 0, [["get", 0, side, False]], dt, mod, [["cond", 0, side, 0, form]])}
+    # (C) HEAD for the remembered response, for the revalidation, for both
+    for kind, side in KS:
+        for mod in (None, "rewrite_other", "touch"):
+            for dt in (0, 2):
+                for form in ("etag", "weak", "list-last", "star", "lastmod", "both"):
+                    for hg, hc in ((False, True), (True, False), (True, True)):
+                        g = ["get", 0, side, False, {"method": "HEAD"}] if hg else ["get", 0, side, False]
+                        c = ["cond", 0, side, 0, form, {"method": "HEAD"}] if hc else ["cond", 0, side, 0, form]
+                        yield {"kind": kind, "nfiles": 1, "ops": hist(side, 0, [g], dt, mod, [c])}
+    # (D) the file is deleted / deleted and created anew
+    for kind, side in KS:
+        for f, pretty in ((0, False), (1, True)) if kind == "pages" else ((0, False),):
+            ex = {"pretty": True} if pretty else {}
+            for form in ALL_FORMS:
+                yield {"kind": kind, "nfiles": 2, "ops": [["get", f, side, pretty], ["delete", f], ["cond", f, side, 0, form, ex], ["get", f, side, pretty]]}
+                yield {"kind": kind, "nfiles": 2, "ops": [["get", f, side, pretty], ["advance", 2], ["delete", f], ["rewrite_other", f], ["cond", f, side, 0, form, ex],
+                                                          ["get", f, side, pretty], ["cond", f, side, 1, form, ex]]}
+            for app in ("shared", "fresh"):
+                yield {"kind": kind, "nfiles": 2, "app": app, "opts": {"handle_404": True},
+                       "ops": [["get", f, side, pretty], ["cond", f, side, 0, "star", ex], ["delete", f], ["cond", f, side, 0, "star", ex], ["cond", f, side, 0, "etag", ex],
+                               ["cond", f, side, 0, "lastmod", ex], ["advance", 1], ["rewrite_same", f], ["cond", f, side, 0, "star", ex], ["cond", f, side, 0, "etag", ex]]}
+    # (E) sub-directories, directory URLs (index.html) and extension-less URLs
+    for kind, side in KS:
+        for pretty in (False, True) if kind == "pages" else (False,):
+            ex = {"pretty": True} if pretty else {}
+            for f in range(len(TREE_NAMES)):
+                for mod in (None, "rewrite_other", "rewrite_same"):
+                    for dt in (0, 2):
+                        for form in ("etag", "weak-in-list", "lastmod", "both", "star"):
+                            yield {"kind": kind, "names": TREE_NAMES, "ops": hist(side, f, [["get", f, side, pretty]], dt, mod, [["cond", f, side, 0, form, ex]])}
+    # (F) constructor options
+    for cacheability in ("public", "private", "no-cache", "no-store"):
+        for max_age, h404 in ((0, False), (600, False), (0, True)):
+            opts = {"cacheability": cacheability, "max_age": max_age, "handle_404": h404}
+            for kind, side in KS:
+                for mod in (None, "rewrite_other"):
+                    for form in ("etag", "lastmod", "both", "star"):
+                        yield {"kind": kind, "nfiles": 1, "opts": opts, "ops": hist(side, 0, [["get", 0, side, False]], 0, mod, [["cond", 0, side, 0, form]])}
+    # (G) one byte shorter k seconds later, zero bytes, access time only
+    for kind, side in KS:
+        for form in ("etag", "weak", "list-middle", "lastmod", "both"):
+            for dt in (0, 0.3, 1, 2):
+                for mod in ("rewrite_shrink", "truncate"):
+                    yield {"kind": kind, "nfiles": 1, "ops": hist(side, 0, [["get", 0, side, False]], dt, mod, [["cond", 0, side, 0, form], ["get", 0, side, False], ["cond", 0, side, 1, form]])}
+                yield {"kind": kind, "nfiles": 1, "ops": [["get", 0, side, False], ["advance", dt], ["access", 0], ["cond", 0, side, 0, form]]}
+            for k in (2, 3):  # k bytes shorter after k seconds, in k steps
+                ops = [["get", 0, side, False]]
+                for _ in range(k):
+                    ops += [["advance", 1], ["rewrite_shrink", 0]]
+                yield {"kind": kind, "nfiles": 1, "ops": ops + [["cond", 0, side, 0, form]]}
+            # an empty file is rewritten / touched / revalidated like any other
+            yield {"kind": kind, "nfiles": 1, "ops": [["truncate", 0], ["get", 0, side, False], ["cond", 0, side, 0, form], ["advance", 2], ["touch", 0], ["cond", 0, side, 0, form],
+                                                      ["get", 0, side, False], ["rewrite_other", 0], ["cond", 0, side, 1, form]]}
+    # (H) chains: the validators of the 200 that answered a conditional request are replayed
+    for kind, side in KS:
+        for app in ("fresh", "shared"):
+            for mod in ("rewrite_same", "rewrite_other", "touch", "restore_old"):
+                for form in ("etag", "both", "lastmod"):
+                    ops = [["get", 0, side, False], ["advance", 2], [mod, 0], ["cond", 0, side, 0, form], ["cond", 0, side, 1, form], ["cond", 0, side, 1, "weak"],
+                           ["advance", 2], ["rewrite_same", 0], ["cond", 0, side, 1, form], ["cond", 0, side, 2, form], ["cond", 0, side, 0, form]]
+                    yield {"kind": kind, "nfiles": 1, "ops": ops, "app": app, "chain": True}
+    # (J) the remembered response is taken from a file whose three time stamps already differ (mtime set back, touched, read)
+    for kind, side in KS:
+        for pre in ("restore_old", "touch", "access"):
+            for mod in (None, "rewrite_same", "rewrite_other", "touch"):
+                for dt in (0, 2):
+                    for form in ("etag", "both", "lastmod", "weak-both"):
+                        yield {"kind": kind, "nfiles": 1, "ops": hist(side, 0, [["advance", 5], [pre, 0], ["get", 0, side, False]], dt, mod, [["cond", 0, side, 0, form]])}
+    # (K) seasons and zones: the date validator in zones with daylight-saving rules (northern, southern, European), in their
+    # winter and in their summer, after a leap day and after 2038; modification seconds or half an hour after the response
+    for tz in (None, "EST5EDT,M3.2.0,M11.1.0", "AEST-10AEDT,M10.1.0,M4.1.0/3", "CET-1CEST,M3.5.0,M10.5.0/3"):
+        for season in (0, 15_000_000, 1_000_000_000):
+            for kind, side in KS:
+                for mod in (None, "rewrite_same"):
+                    for dt in (2, 1800):
+                        for form in ("lastmod", "both"):
+                            case = {"kind": kind, "nfiles": 1, "ops": hist(side, 0, [["advance", season], ["touch", 0], ["get", 0, side, False]], dt, mod, [["cond", 0, side, 0, form]])}
+                            if tz:
+                                case["tz"] = tz
+                            yield case
+    # (L) two files of different size and equal time stamps behind one instance: what is remembered for one must not answer for the other
+    for kind, side in KS:
+        for app in ("shared",):
+            for mod in (None, "rewrite_same", "rewrite_other", "restore_old"):
+                for form in ("etag", "both", "lastmod"):
+                    ops = [["get", 0, side, False], ["get", 1, side, False], ["cond", 0, side, 0, form], ["cond", 1, side, 0, form], ["advance", 2]] + ([[mod, 0]] if mod else []) + \
+                          [["cond", 1, side, 0, form], ["cond", 0, side, 0, form], ["get", 0, side, False], ["cond", 1, side, 0, "etag"], ["cond", 0, side, 1, "etag"]]
+                    yield {"kind": kind, "nfiles": 2, "ops": ops, "app": app}
+    # (I) unrelated headers (some with look-alike names) around the validators
+    for kind, side in KS:
+        for mod in (None, "rewrite_other"):
+            for form in ("etag", "both", "both-ims-first", "lastmod", "star", "near-tags"):
+                yield {"kind": kind, "nfiles": 1, "ops": hist(side, 0, [["get", 0, side, False, {"noise": True}]], 0, mod, [["cond", 0, side, 0, form, {"noise": True}]])}
+
+
 def run(rec, only=None):
     quick = rec.tier == "quick"
     core.drive_cases(rec, "grid", grid_cases(), oracle)
     rec.exhaustive["grid"] = True
+    core.drive_cases(rec, "grid2", grid2_cases(), oracle)
+    rec.exhaustive["grid2"] = True
     core.drive_hypothesis(rec, "histories", history_case(), oracle, 600 if quick else 15000)
     rec.exhaustive["histories"] = False
+    core.drive_hypothesis(rec, "histories2", history2_case(), oracle, 400 if quick else 15000)
+    rec.exhaustive["histories2"] = False
